@@ -179,6 +179,7 @@ type c12Inst struct {
 	pool    *sync.Pool
 	n       *c12Node
 	st      *c12Stats
+	chk     *vx.Check
 	start   time.Time
 	dead    bool
 	bits    map[uint64]uint8 // row -> column mask
@@ -225,6 +226,7 @@ func (in *c12Inst) Apply(op vx.Op) (got, want string) {
 		if !in.dead {
 			in.dead = true
 			atomic.AddInt64(&in.st.discarded, 1)
+			in.chk.NotExhaustive("an instance outlived the 4 s timing guard and was discarded (never judged)")
 		}
 		return "", ""
 	}
@@ -594,6 +596,19 @@ func c12Alphabet(thorough bool) []vx.Op {
 	return a
 }
 
+// c12CoreAlphabet: a sharper sub-alphabet for one more level of depth.
+func c12CoreAlphabet() []vx.Op {
+	return []vx.Op{
+		vx.O("TopN", 0, 0, 0, -1), vx.O("TopN", 0, 0b1111, 0, -1), vx.O("TopN", 0, 0b1111, 0, 2),
+		vx.O("Recalculate"),
+		vx.O("Set", 1, 0), vx.O("Set", 2, 0), vx.O("Set", 3, 0), vx.O("Set", 4, 0),
+		vx.O("Clear", 1, 0), vx.O("Clear", 2, 0),
+		vx.O("Import", 0), vx.O("Import", 1), vx.O("Import", 3), vx.O("ImportClear", 0), vx.O("ImportClear", 3),
+		vx.O("Roaring", 1), vx.O("Roaring", 2), vx.O("RoaringClear", 0), vx.O("RoaringClear", 1),
+		vx.O("ClearRow", 1), vx.O("ClearRow", 3), vx.O("Store", 0), vx.O("Store", 2),
+	}
+}
+
 // c12Key: cache type + whether the rows fit + clause + discrepancy + the write paths on the
 // minimal failing history.
 func c12Key(cf c12Cfg, p []vx.Op, got, want string) string {
@@ -620,21 +635,25 @@ func c12Key(cf c12Cfg, p []vx.Op, got, want string) string {
 	case strings.Contains(got, "wrong-count row"):
 		// stale (reported > true) or lost (reported < true)?
 		what = "wrong-count"
-		var row, rep int
+		var row int
+		var rep, tcu uint64
 		if i := strings.Index(got, "wrong-count row"); i >= 0 {
 			fmt.Sscanf(got[i:], "wrong-count row%d reported=%d", &row, &rep)
 			tc := -1
 			if j := strings.Index(want, fmt.Sprintf("row%d=", row)); j >= 0 {
 				fmt.Sscanf(want[j:], fmt.Sprintf("row%d=%%d", row), &tc)
 			}
+			if tc > 0 {
+				tcu = uint64(tc)
+			}
 			switch {
+			case rep > 1<<32:
+				what = "count-wrapped-around"
 			case tc == 0:
 				what = "count-reported-for-empty-row"
-			case rep > tc && rep > 1<<32:
-				what = "count-wrapped-around"
-			case rep > tc:
+			case rep > tcu:
 				what = "count-too-high"
-			case rep < tc:
+			case rep < tcu:
 				what = "count-too-low"
 			}
 		}
@@ -645,25 +664,37 @@ func c12Key(cf c12Cfg, p []vx.Op, got, want string) string {
 	case strings.Contains(got, "not-non-increasing"):
 		what = "not-non-increasing"
 	}
-	seen := map[string]bool{}
-	var ws []string
-	touched := map[int64]bool{}
+	// culprit: the last write on the minimal failing history that targets the misreported row (the
+	// write after which the cached count of that row is wrong); without a row, the last write.
+	badRow := int64(-1)
+	if i := strings.Index(got, "wrong-count row"); i >= 0 {
+		fmt.Sscanf(got[i:], "wrong-count row%d", &badRow)
+	}
+	touches := func(o vx.Op) bool {
+		if badRow < 0 {
+			return true
+		}
+		switch o.Name {
+		case "Set", "Clear", "ClearRow":
+			return o.Args[0] == badRow
+		case "Store":
+			return int64(c12Stores[o.Args[0]][1]) == badRow
+		case "Import", "ImportClear", "Roaring", "RoaringClear", "RoaringOfficial", "RoaringOfficialClear":
+			for _, b := range c12Payloads[o.Args[0]] {
+				if int64(b.row) == badRow {
+					return true
+				}
+			}
+		}
+		return false
+	}
+	culprit := "none"
 	for _, o := range p {
-		if o.Name == "TopN" {
-			continue
-		}
-		if !seen[o.Name] {
-			seen[o.Name] = true
-			ws = append(ws, o.Name)
+		if o.Name != "TopN" && o.Name != "Recalculate" && touches(o) {
+			culprit = o.Name
 		}
 	}
-	_ = touched
-	sort.Strings(ws)
-	size := "small"
-	if cf.size >= 4 {
-		size = "large"
-	}
-	return fmt.Sprintf("%s cache=%s %s %s writes=%s", cf.cacheType, size, clause, what, strings.Join(ws, "+"))
+	return fmt.Sprintf("%s %s %s last-write=%s", cf.cacheType, clause, what, culprit)
 }
 
 func TestVerif_C12(t *testing.T) {
@@ -697,31 +728,24 @@ func TestVerif_C12(t *testing.T) {
 	}
 	for _, cf := range cfgs {
 		cf := cf
-		h := &vx.Harness{
-			MultiProcess: true,
-			Alphabet:     alpha,
-			New: func() vx.Instance {
-				n := pool.Get().(*c12Node)
-				if _, err := n.idx.CreateField("f", OptFieldTypeSet(cf.cacheType, cf.size)); err != nil {
-					panic(err)
-				}
-				return &c12Inst{cfg: cf, pool: pool, n: n, st: st, start: time.Now(), bits: map[uint64]uint8{}, touched: map[uint64]bool{}}
-			},
-			Key: func(p []vx.Op, g, w string) string { return c12Key(cf, p, g, w) },
+		newInst := func() vx.Instance {
+			n := pool.Get().(*c12Node)
+			if _, err := n.idx.CreateField("f", OptFieldTypeSet(cf.cacheType, cf.size)); err != nil {
+				panic(err)
+			}
+			return &c12Inst{cfg: cf, pool: pool, n: n, st: st, chk: c, start: time.Now(), bits: map[uint64]uint8{}, touched: map[uint64]bool{}}
 		}
+		key := func(p []vx.Op, g, w string) string { return c12Key(cf, p, g, w) }
+		h := &vx.Harness{MultiProcess: true, Alphabet: alpha, New: newInst, Key: key}
+		hCore := &vx.Harness{MultiProcess: true, Alphabet: c12CoreAlphabet(), New: newInst, Key: key}
 		c.RunDFS(h, c.Pick(2, 3))
 		c.ConfirmViolations(h)
-		c.RunBFS(h, c.Pick(4, 6), c.Pick(250, 4000))
+		c.RunDFS(hCore, c.Pick(3, 4))
+		c.ConfirmViolations(hCore)
+		c.RunBFS(h, c.Pick(2, 6), c.Pick(5000, 4000))
 		c.ConfirmViolations(h)
 	}
 	c.AddValidated(c.Evaluations)
-	c.Extra("instances_discarded_by_timing_guard", atomic.LoadInt64(&st.discarded))
-	c.Extra("clause1_checks", atomic.LoadInt64(&st.clause1Checks))
-	c.Extra("clause2_checks_in_scope", atomic.LoadInt64(&st.clause2Checks))
-	c.Extra("not_judged_mismatches_under_wider_reading_nonempty_rows_fit", atomic.LoadInt64(&st.literalReading))
-	if st.discarded > 0 {
-		c.NotExhaustive("some instances outlived the 4 s timing guard and were discarded")
-	}
 	c.Assume("'rows fit in the cache' is read as: the number of rows that were ever the target of a write on the shard is <= cache size (so no row can have been evicted or refused); 'freshly recalculated' as: API.RecalculateCaches with no write since")
 	c.Assume("4 rows x 3 columns of one shard; counts 0..3 with ties")
 	if c.Finish() != 0 {
